@@ -105,7 +105,7 @@ def gen_query_args(rng, arity, qvars):
 def _rand_list(rng, n=None, atoms=ATOMS):
     if n is None:
         # mostly small; now and then around the sizes where a fast path could switch (16, 32)
-        n = rng.choice([0, 1, 2, 3, 4, 5]) if rng.random() < 0.93 else rng.choice([15, 16, 17, 18, 24, 33, 40])
+        n = rng.choice([0, 1, 2, 3, 4, 5]) if rng.random() < 0.93 else rng.choice([15, 16, 17, 18, 24, 33, 40, 64, 65, 100, 129])
     return L([rng.choice([A(x) for x in atoms] + [I(1), C('f', A('a'))]) for _ in range(n)])
 
 
